@@ -69,6 +69,16 @@ def check_sim(name,Top,kind,seed,ncycles=6):
   """kind: 'acyclic' | 'false_loop' | 'true_loop'. returns list of violation strings."""
   from pymtl3.dsl.errors import UpblkCyclicError
   out=[]; traces={}
+  if kind=='reject':
+    # a cycle without a value-carrying signal, or with an update_once block on it: every scheduler must refuse (C02 / C11)
+    for pg,apply in pass_groups(True).items():
+      try:
+        top=Top(); top.elaborate(); apply(top)
+        out.append(f"{pg}: the design was scheduled ({[getattr(b,'__name__',b) for b in top._sched.update_schedule]}) although its cycle has no value-carrying signal / contains an update_once block: UpblkCyclicError expected")
+      except UpblkCyclicError: pass
+      except Exception as e:
+        if pg in('default','mamba2020'): out.append(f"{pg}: {type(e).__name__} instead of UpblkCyclicError: {str(e)[:100]}")
+    return out
   for pg,apply in pass_groups(kind!='acyclic').items():
     cyc_capable = pg in('default','mamba2020')
     for oat in ((False,True) if kind!='acyclic' else (False,)):
